@@ -25,6 +25,7 @@ pub fn generate(ctx: &GenCtx, profile: &str, run: u64) -> Option<Plan> {
         "aux-enum" => crate::gen2::aux_enum(ctx, &mut rng, run)?,
         "keygen" => crate::gen2::keygen(ctx, &mut rng, run),
         "purity" => crate::gen2::purity(ctx, &mut rng, run),
+        "purity-proc" => crate::gen2::purity_proc(ctx, &mut rng, run),
         "radix-arith" => crate::gen2::radix_arith(ctx, &mut rng, run)?,
         "radix-e2e" => crate::gen2::radix_e2e(ctx, &mut rng, run)?,
         "handover" => crate::gen2::handover(ctx, &mut rng, run),
